@@ -63,6 +63,7 @@ CONFIG_LDFLAGS = {
     "asan": "-fsanitize=address,undefined",
     "par": "-fno-sanitize=all",
 }
+CONFIG_TARGETS = {"par": ["smt"], "seq": ["smt"]}  # the executables of the repo cannot link without the TSan callbacks
 GUARD = "-DPSTLAB_ORATIO_VERIF"
 
 
@@ -98,7 +99,7 @@ def build_repo(config):
         if r.returncode != 0:
             log(r.stdout[-4000:])
             raise SystemExit(2)
-        r = sh(["cmake", "--build", bdir, "-j", "16"])
+        r = sh(["cmake", "--build", bdir, "-j", "16"] + (["--target"] + CONFIG_TARGETS[config] if config in CONFIG_TARGETS else []))
         if r.returncode != 0:
             log(r.stdout[-6000:])
             log("BUILD FAILED for configuration", config)
@@ -123,6 +124,11 @@ ENGINES = {
     "exec": {
         "sources": ["sim/exec/exec_main.cpp", "sim/core/layout.cpp"],
         "libs": ["-lexecutor", "-lsolver", "-lcore", "-lriddle", "-lsmt", "-ljson", "-lgmpxx", "-lgmp"],
+    },
+    "par": {
+        "sources": ["sim/par/par_main.cpp", "sim/par/sched.cpp", "sim/core/layout.cpp"],
+        "libs": ["-lsmt", "-ljson"],
+        "libs_by_config": {"par": ["-lconcurrent"]},
     },
     "plan": {
         "sources": ["sim/plan/plan_main.cpp", "sim/core/layout.cpp"],
@@ -196,7 +202,7 @@ def build_engine(engine, config):
                 raise SystemExit(2)
             open(stamp, "w").write(key)
         exe = os.path.join(edir, engine + "_engine")
-        link = ["g++", "-o", exe] + objs + ["-L" + os.path.join(bdir, "lib"), "-Wl,-rpath," + os.path.join(bdir, "lib")] + spec["libs"] + ["-rdynamic", "-ldl", "-lpthread"]
+        link = ["g++", "-o", exe] + objs + ["-L" + os.path.join(bdir, "lib"), "-Wl,-rpath," + os.path.join(bdir, "lib")] + spec["libs"] + spec.get("libs_by_config", {}).get(config, []) + ["-rdynamic", "-ldl", "-lpthread"]
         if config == "asan":
             link += CONFIG_LDFLAGS["asan"].split()
         r = sh(link)
